@@ -65,7 +65,10 @@ pub fn any_key() -> KeyPair {
 
 /// Run `f`, turning a panic into `Err(location/message)`.
 pub fn guard<T>(f: impl FnOnce() -> T) -> Result<T, String> {
-	match std::panic::catch_unwind(std::panic::AssertUnwindSafe(f)) {
+	IN_GUARD.with(|g| g.set(g.get() + 1));
+	let r = std::panic::catch_unwind(std::panic::AssertUnwindSafe(f));
+	IN_GUARD.with(|g| g.set(g.get() - 1));
+	match r {
 		Ok(v) => Ok(v),
 		Err(p) => {
 			let msg = if let Some(s) = p.downcast_ref::<&str>() {
@@ -82,6 +85,7 @@ pub fn guard<T>(f: impl FnOnce() -> T) -> Result<T, String> {
 }
 
 thread_local! {
+	pub static IN_GUARD: std::cell::Cell<u32> = std::cell::Cell::new(0);
 	pub static LAST_PANIC_LOC: std::cell::RefCell<String> = std::cell::RefCell::new(String::new());
 }
 
@@ -98,6 +102,10 @@ pub fn install_panic_hook() {
 				format!("{}:{}", tail.join("/"), l.line())
 			})
 			.unwrap_or_default();
+		if IN_GUARD.with(|g| g.get()) == 0 {
+			// a panic of the harness itself: say so loudly (./check maps it to inconclusive)
+			eprintln!("HARNESS PANIC: {}", info);
+		}
 		LAST_PANIC_LOC.with(|l| *l.borrow_mut() = loc);
 	}));
 }
